@@ -79,7 +79,16 @@ def run(ctx):
     if not ctx.violations:      # a violation is a verdict; vacuity only matters for a pass
         ctx.require_actions('universe', 'rules-1', 'rules-2', 'rules-3', 'allow', 'deny', 'tracked', 'verdict-undecided',
                             'proto-any', 'proto-tcp', 'proto-udp', 'proto-icmp',
-                            'port-any', 'port-single', 'port-range', 'port-fragment')
+                            'port-any', 'port-single', 'port-range', 'port-fragment',
+                            # the port dimension: every placement of a specification in the port space, confronted with
+                            # port 0 and with packets without ports
+                            'prules-1', 'prules-2', 'pport:any', 'pport:fragment', 'pport:single', 'pport:single-lowest',
+                            'pport:single-highest', 'pport:range', 'pport:range-from-1', 'pport:range-to-max', 'pport:full-range',
+                            'pport:zero-range', 'pport:icmp-ignored',
+                            'pcase:full-range:tcp/frag', 'pcase:full-range:tcp/port0', 'pcase:full-range:udp/frag',
+                            'pcase:full-range:udp/port0', 'pcase:full-range:other/port0', 'pcase:full-range:icmp',
+                            'pcase:range-from-1:tcp/port0', 'pcase:range-to-max:tcp/frag', 'pcase:range:tcp/frag',
+                            'pcase:single:tcp/port0', 'pcase:fragment:tcp/frag', 'pcase:fragment:tcp/port0', 'pcase:any:tcp/port0')
 
 
 META = {
